@@ -818,6 +818,16 @@ func (vm *vm) _restoreStacks(iterLen, refLen uint32, closeIters bool) (ex *Excep
 	return
 }
 
+// closeIterators is _restoreStacks(..., true) which returns the value of a panic (an uncatchable exception raised by
+// an iterator's return() method) instead of propagating it.
+func (vm *vm) closeIterators(iterLen, refLen uint32) (x interface{}) {
+	defer func() {
+		x = recover()
+	}()
+	_ = vm._restoreStacks(iterLen, refLen, true)
+	return
+}
+
 func (vm *vm) handleThrow(arg interface{}) *Exception {
 	ex := vm.exceptionFromValue(arg)
 	for len(vm.tryStack) > 0 {
@@ -836,7 +846,20 @@ func (vm *vm) handleThrow(arg interface{}) *Exception {
 		vm.sp = int(tf.sp)
 		vm.stash = tf.stash
 		vm.privEnv = tf.privEnv
-		_ = vm._restoreStacks(tf.iterLen, tf.refLen, ex != nil)
+		if ex != nil && len(vm.iterStack) > int(tf.iterLen) {
+			if x := vm.closeIterators(tf.iterLen, tf.refLen); x != nil {
+				// Closing an iterator has been interrupted. There may be no other recover() that would call
+				// handleThrow() for it, so continue unwinding here, with that (uncatchable) condition.
+				arg, ex = x, nil
+				if tf.catchPos != tryPanicMarker {
+					tf.exception = nil
+					vm.popTryFrame()
+					continue
+				}
+			}
+		} else {
+			_ = vm._restoreStacks(tf.iterLen, tf.refLen, false)
+		}
 
 		if tf.catchPos == tryPanicMarker {
 			if ex == nil && tf.finallyPos == tryGeneratorMarker {
